@@ -35,6 +35,7 @@
 -/
 import YtkProofs.Effects
 import YtkModel.Generated.Effects
+import YtkModel.GapThreads
 
 namespace Ytk.C20
 open Ytk.EffectT Ytk.Effects Ytk.Generated
@@ -277,5 +278,90 @@ theorem nonvacuous_interleaving :
   intro t ht
   simp at ht
   exact ht
+
+/-! ### round 8 (lean/CLAUSES_B.md, clauses C20.4, C20.5): from "no write on a read path" to "no race"
+
+  The property says: read-only use never modifies the document; THEREFORE any number of goroutines may read
+  at the same time without data races and observe the same content.  The two halves were separate theorems
+  (`readApi_runs_globalFree` about call trees, `no_race_of_readOnly` / `same_observations` about threads
+  that are ASSUMED read-only).  Here they are composed (YtkModel/GapThreads.lean): a goroutine is a
+  sequence of calls; each call is a call tree that conforms to the regenerated table, rooted in a function
+  of the read API (or `Merge`), together with the memory events performed during it, every write event
+  going through a root the call tree writes (`Covered`). -/
+
+/-- what is assumed of one goroutine -/
+def ReadApiCalls (ρ : Nat → Root) (cs : List Call) : Prop :=
+  ∀ c ∈ cs, (∃ e ∈ readApi ++ auxApi, c.run.fn = e.2) ∧ c.run.Conforms effectTable ∧ Covered ρ c
+
+/-- such a goroutine performs no write event at all -/
+theorem readApi_threads_readOnly (ρ : Nat → Root) (tss : List (List Call))
+    (h : ∀ cs ∈ tss, ReadApiCalls ρ cs) : ReadOnly (tss.map threadOf) := by
+  intro t ht e he
+  obtain ⟨cs, hcs, rfl⟩ := List.mem_map.mp ht
+  simp only [threadOf, List.mem_flatMap] at he
+  obtain ⟨c, hc, hec⟩ := he
+  obtain ⟨⟨a, ha, hfn⟩, hconf, hcov⟩ := h cs hcs c hc
+  cases hr : e.isRead with
+  | true => rfl
+  | false =>
+    have hw := hcov e hec hr
+    rw [(readApi_runs_globalFree a ha c.run hfn hconf).1] at hw
+    cases hw
+
+/-- C20.4: ANY number of goroutines, each running ANY sequence of read-API calls on the same document:
+    there is no data race -/
+theorem readApi_threads_no_race (ρ : Nat → Root) (tss : List (List Call))
+    (h : ∀ cs ∈ tss, ReadApiCalls ρ cs) : ¬ Race (tss.map threadOf) :=
+  Effects.no_race_of_readOnly _ (readApi_threads_readOnly ρ tss h)
+
+/-- C20.5: … and under EVERY interleaving the scheduler may produce, every goroutine observes exactly
+    what it observes when it runs alone on the same store -/
+theorem readApi_threads_same_observations (ρ : Nat → Root) (tss : List (List Call))
+    (h : ∀ cs ∈ tss, ReadApiCalls ρ cs) (tr : List (Nat × Ev)) (hi : Interleave (tss.map threadOf) tr)
+    (i : Nat) (σ : Store) :
+    observe i σ tr = observeAlone σ ((((tss.map threadOf))[i]?).getD []) :=
+  Effects.same_observations _ tr hi (readApi_threads_readOnly ρ tss h) i σ
+
+/-- the coverage hypothesis is what excludes a writer: a call whose events contain a write is NOT covered
+    by a call tree without write roots — so for a function of the read API (whose conforming call trees
+    all have `writes = []`) no conforming, covered call can contain a write event -/
+theorem covered_excludes_write (ρ : Nat → Root) (c : Call) (hw : c.run.writes = [])
+    (e : Ev) (he : e ∈ c.evs) (hwr : e.isRead = false) : ¬ Covered ρ c := by
+  intro h
+  have := h e he hwr
+  rw [hw] at this
+  cases this
+
+/-- non-vacuity: two goroutines, each making two calls of the first read-API function of the regenerated
+    table (leaf call trees, read events on overlapping locations): the hypotheses hold -/
+theorem nonvacuous_readApi_threads :
+    let fn := (readApi.headD ("", 0)).2
+    let c1 : Call := ⟨.node fn [] [], [.rd 1, .rd 2]⟩
+    let c2 : Call := ⟨.node fn [] [], [.rd 2]⟩
+    readApi ≠ [] ∧ (∀ cs ∈ [[c1, c2], [c2, c1]], ReadApiCalls (fun _ => 0) cs) ∧
+    threadOf [c1, c2] = [.rd 1, .rd 2, .rd 2] := by
+  intro fn c1 c2
+  have hfn : fn < effectTable.length := by decide +kernel
+  have hmem : (readApi.headD ("", 0)) ∈ readApi ++ auxApi := by decide +kernel
+  have hc : ∀ c : Call, c = c1 ∨ c = c2 →
+      (∃ e ∈ readApi ++ auxApi, c.run.fn = e.2) ∧ c.run.Conforms effectTable ∧ Covered (fun _ => 0) c := by
+    intro c hc
+    rcases hc with rfl | rfl
+    · refine ⟨⟨_, hmem, rfl⟩, ⟨hfn, by simp, trivial⟩, ?_⟩
+      intro e he hr
+      simp only [c1, List.mem_cons, List.not_mem_nil, or_false] at he
+      rcases he with rfl | rfl <;> cases hr
+    · refine ⟨⟨_, hmem, rfl⟩, ⟨hfn, by simp, trivial⟩, ?_⟩
+      intro e he hr
+      simp only [c2, List.mem_cons, List.not_mem_nil, or_false] at he
+      rcases he with rfl <;> cases hr
+  refine ⟨by decide +kernel, ?_, rfl⟩
+  intro cs hcs c hcc
+  simp only [List.mem_cons, List.not_mem_nil, or_false] at hcs
+  rcases hcs with rfl | rfl
+  · simp only [List.mem_cons, List.not_mem_nil, or_false] at hcc
+    exact hc c hcc
+  · simp only [List.mem_cons, List.not_mem_nil, or_false] at hcc
+    exact hc c hcc.symm
 
 end Ytk.C20
